@@ -14,8 +14,8 @@
    (a conformant message the reader decodes, without error, to a different value), and the positive theorem carries
    the hypothesis that names the excluded class. *)
 From HV Require Import Base.Prelude Base.Outcome Base.Bytes Spec.Parse Spec.Format Spec.FormatMsg
-  Model.CodecMsg Model.CodecType Model.CodecLink Model.CodecAttr Model.CodecSuper Model.CodecAttrRepaired Model.CodecSuperRepaired
-  Proofs.ReaderSpecBase Proofs.ReaderSpecDataspace Proofs.ReaderSpecLayout Proofs.ReaderSpecLink Proofs.ReaderSpecSuper Proofs.ReaderSpecAttr Proofs.ReaderSpecType Proofs.ReaderSpecAttrFrame Proofs.ReaderSpecSuperOk Proofs.ReaderSpecInfo Proofs.ReaderSpecTypeAll Proofs.ReaderSpecSuperRepaired.
+  Model.CodecMsg Model.CodecType Model.CodecLink Model.CodecAttr Model.CodecSuper Model.CodecFilter Model.CodecAttrRepaired Model.CodecSuperRepaired Model.CodecFilterRepaired
+  Proofs.ReaderSpecBase Proofs.ReaderSpecDataspace Proofs.ReaderSpecLayout Proofs.ReaderSpecLink Proofs.ReaderSpecSuper Proofs.ReaderSpecAttr Proofs.ReaderSpecType Proofs.ReaderSpecAttrFrame Proofs.ReaderSpecSuperOk Proofs.ReaderSpecInfo Proofs.ReaderSpecTypeAll Proofs.ReaderSpecSuperRepaired Proofs.ReaderSpecPipeline.
 
 (* ------------------------------------------------------------------ dataspace (versions 1 and 2; scalar, simple, null;
    maximum extents).  The reader is not told the size of lengths: it infers 8- or 4-byte extents from the message length.
@@ -273,3 +273,30 @@ Theorem C06_reader_superblock_repaired_witnesses :
   repaired_view sb0_witness_4 = Ok (0, 4, 4, 0, 96, 136, 680).
 Proof. exact superblock_repaired_witnesses. Qed.
 Print Assumptions C06_reader_superblock_repaired_witnesses.
+
+(* ------------------------------------------------------------------ filter pipeline message version 2: REFUTED for
+   user-defined filters (identifier >= 256).  A genuine version 2 message gives such a filter a name-length field and a
+   name; the reader reads neither (outside the version 1 layout), so it returns the name length as the flags, drops the
+   client data and continues behind the wrong field.  Witness: filter 32000 "lzf" with client data [5].
+   With notes/fixes/c06-pipeline-v2-filter-name.patch (Model/CodecFilterRepaired.v; dec_pipeline_gen false is the tied model
+   dec_pipeline) the witness is decoded as the specification says. *)
+Theorem C06_reader_pipeline_v2_userfilter_refuted :
+  spec_dec_pipeline strict false pipeline_v2_userfilter_witness =
+    Ok ([{| fl_id := 32000; fl_flags := 0; fl_name := [108; 122; 102; 0]; fl_cd := [5] |}], []) /\
+  dec_pipeline pipeline_v2_userfilter_witness =
+    Ok {| pl_version := 2; pl_nfilters := 1;
+          pl_filters := [{| rf_id := 32000; rf_namelen := 0; rf_flags := 4; rf_ncd := 0; rf_name := []; rf_cd := None |}] |}.
+Proof. exact pipeline_v2_userfilter_refuted. Qed.
+Print Assumptions C06_reader_pipeline_v2_userfilter_refuted.
+
+Theorem C06_reader_pipeline_gen_is_current : forall (data : bytes), dec_pipeline_gen false data = dec_pipeline data.
+Proof. exact dec_pipeline_gen_current. Qed.
+Print Assumptions C06_reader_pipeline_gen_is_current.
+
+Theorem C06_reader_pipeline_v2_userfilter_repaired :
+  dec_pipeline_gen true pipeline_v2_userfilter_witness =
+    Ok {| pl_version := 2; pl_nfilters := 1;
+          pl_filters := [{| rf_id := 32000; rf_namelen := 4; rf_flags := 0; rf_ncd := 1; rf_name := [108; 122; 102];
+                            rf_cd := Some [5] |}] |}.
+Proof. exact pipeline_v2_userfilter_repaired. Qed.
+Print Assumptions C06_reader_pipeline_v2_userfilter_repaired.
